@@ -27,3 +27,4 @@ fn nan(x: f64) -> bool { x != x }
 #[kani::proof] fn ax_clamp() { let x: f64 = kani::any(); let lo: f64 = kani::any(); let hi: f64 = kani::any();
     if lo <= hi { let r = x.clamp(lo, hi); if nan(x) { assert!(nan(r)); } else { assert!(lo <= r && r <= hi); } if lo <= x && x <= hi { assert!(r.to_bits() == x.to_bits()); } } }
 #[kani::proof] fn ax_nan_arith() { let a: f64 = kani::any(); let e: f64 = kani::any(); if nan(a) { assert!(nan(a - e) && nan(a + e)); } if a < e { assert!(a <= e); } }
+#[kani::proof] fn ax_unit_range() { assert!(-1.0f64 < 1.0f64 && (1.0f64 - (-1.0f64)).is_finite()); }
